@@ -104,6 +104,7 @@ DEFAULTS = {
     'find_view_types': ['IView', 'ISecuredView', 'IMultiView'],
     'register_view_types': ['IView', 'ISecuredView', 'IMultiView'],
     'unregister_view_types': ['IView', 'ISecuredView'],
+    'override_unregister_view_types': ['IView', 'ISecuredView'],
     'accept_order': ['text/html', 'application/xhtml+xml', 'application/xml', 'text/xml', 'text/plain', 'application/json'],
     'rm_get': 'GET', 'rm_head': 'HEAD', 'not_mark': '!',
     'pfx': {'xhr': ('xhr = ', None), 'request_method': ('request_method = ', ','), 'path_info': ('path_info = ', None),
@@ -210,14 +211,46 @@ def extract(src, problems):
             raise Unk('view_types default in _find_views')
         v['find_view_types'] = _names_tuple(vt[0])
         rv = mv.find('ViewsConfiguratorMixin.add_view.register_view')
-        loops = [n for n in ast.walk(rv) if isinstance(n, ast.For) and isinstance(n.target, ast.Name)
-                 and n.target.id == 'view_type']
-        if len(loops) != 2:
-            raise Unk('two view_type loops in register_view')
-        v['register_view_types'] = _names_tuple(loops[0].iter)
-        v['unregister_view_types'] = _names_tuple(loops[1].iter)
+        top = [n for n in rv.body if isinstance(n, ast.For) and isinstance(n.target, ast.Name)
+               and n.target.id == 'view_type']
+        if len(top) != 1:
+            raise Unk('the lookup loop of register_view')
+        v['register_view_types'] = _names_tuple(top[0].iter)
+        branch = [n for n in rv.body if isinstance(n, ast.If) and ast.unparse(n.test) == 'not want_multiview']
+        if len(branch) != 1:
+            raise Unk('if not want_multiview')
+
+        def unreg_loops(stmts):
+            out = []
+            for n in stmts:
+                if isinstance(n, ast.For) and isinstance(n.target, ast.Name) and n.target.id == 'view_type':
+                    calls = [c for c in ast.walk(n) if isinstance(c, ast.Call) and isinstance(c.func, ast.Attribute)]
+                    if len(n.body) != 1 or len(calls) != 1 or calls[0].func.attr != 'unregister' \
+                            or 'view_type' not in ast.unparse(calls[0]):
+                        raise Unk('body of a view_type loop')
+                    out.append(_names_tuple(n.iter))
+            return out
+
+        def reg_calls(stmts):
+            return [i for i, n in enumerate(stmts) if isinstance(n, ast.Expr) and isinstance(n.value, ast.Call)
+                    and isinstance(n.value.func, ast.Attribute) and n.value.func.attr == 'registerAdapter']
+        single, multi = branch[0].body, branch[0].orelse
+        if len(reg_calls(single)) != 1 or len(reg_calls(multi)) != 1:
+            raise Unk('one registerAdapter per branch')
+        for stmts in (single, multi):       # every unregister loop must come before the registerAdapter call
+            k = reg_calls(stmts)[0]
+            if any(isinstance(n, ast.For) for n in stmts[k + 1:]):
+                raise Unk('loop after registerAdapter')
+        lo = unreg_loops(single)
+        if len(lo) > 1:
+            raise Unk('more than one unregister loop in the single-view branch')
+        v['override_unregister_view_types'] = lo[0] if lo else []
+        lm = unreg_loops(multi)
+        if len(lm) != 1:
+            raise Unk('unregister loop of the multiview branch')
+        v['unregister_view_types'] = lm[0]
         known = {'IView', 'ISecuredView', 'IMultiView'}
-        for k in ('find_view_types', 'register_view_types', 'unregister_view_types'):
+        for k in ('find_view_types', 'register_view_types', 'unregister_view_types', 'override_unregister_view_types'):
             if not set(v[k]) <= known:
                 raise Unk('%s names an unknown view type' % k)
     attempt('view type tuples', f_types)
@@ -274,6 +307,7 @@ def emit(v):
            'Definition find_view_type_names : list text := %s.\n' % F.coq_texts(v['find_view_types']),
            'Definition register_view_type_names : list text := %s.\n' % F.coq_texts(v['register_view_types']),
            'Definition unregister_view_type_names : list text := %s.\n' % F.coq_texts(v['unregister_view_types']),
+           'Definition override_unregister_view_type_names : list text := %s.\n' % F.coq_texts(v['override_unregister_view_types']),
            'Definition rm_get : text := %s.\nDefinition rm_head : text := %s.\n' % (T(v['rm_get']), T(v['rm_head'])),
            'Definition not_mark : text := %s.\n' % T(v['not_mark'])]
     for stem, (p, s) in sorted(v['pfx'].items()):
